@@ -25,6 +25,8 @@ func runC17(c *Ctx) {
 	c.rule("R17.1", "every blocking socket read is preceded by renewing the read deadline")
 	c.rule("R17.8", "the deadline renewal really sets the deadline whenever a timeout is configured")
 	c.renewalUnconditional("R17.8")
+	c.rule("R17.10", "a side that replaces gorilla's ping handler (which answers with a pong) by one that does not answer sends pings itself: the replacement is installed only when a ping interval is configured")
+	c.pingHandlerNeedsPinger("R17.10")
 	c.ruleOpt("R17.9", "a write deadline put on the socket is lifted again before the writer returns (gorilla keeps it for every later frame)")
 	c.stickyWriteDeadline("R17.9")
 	c.rule("R17.2", "pong and ping handlers signal peer activity with a non-blocking send; the activity arm renews the read deadline")
@@ -145,6 +147,39 @@ func runC17(c *Ctx) {
 				okAll = false
 				c.bad("R17.3", construct, p.pos(pinger.Pos()), "the ping loop has no stop arm that ends it: ping goroutines pile up across reconnects")
 			}
+			// every tick sends a ping: from the timer arm the next wait is not reached without the ping write.
+			// Our pings are the peer's only sign of life (it gets no pongs from us), so a tick skipped because
+			// "we have just heard from the peer" starves a peer that is only receiving.
+			isPing := func(x ssa.Instruction) bool { return x == pingWrite }
+			allInstrs(pinger, func(in ssa.Instruction) {
+				switch x := in.(type) {
+				case *ssa.Select:
+					arms, _ := selectArms(x)
+					for _, a := range arms {
+						if a.State.Dir != types.RecvOnly || a.Body == nil {
+							continue
+						}
+						if ch, ok := a.State.Chan.Type().Underlying().(*types.Chan); !ok || !isNamed(ch.Elem(), "time", "Time") {
+							continue
+						}
+						if wv := reachFromBlock(a.Body, func(y ssa.Instruction) bool { return y == in }, func(y ssa.Instruction) bool { return isPing(y) || isReturn(y) }); wv != nil {
+							okAll = false
+							c.bad("R17.3", construct, c.ipos(a.Body.Instrs[0]), "a tick of the ping timer can pass without a ping being written (e.g. skipped because a message was received recently): the peer, which only ever sees our pings as a sign of life, times out on a healthy link under one-way traffic")
+						}
+					}
+				case *ssa.UnOp:
+					if x.Op != token.ARROW {
+						return
+					}
+					if ch, ok := x.X.Type().Underlying().(*types.Chan); !ok || !isNamed(ch.Elem(), "time", "Time") {
+						return
+					}
+					if wv := reachFrom(in, func(y ssa.Instruction) bool { return y == in }, func(y ssa.Instruction) bool { return isPing(y) || isReturn(y) }); wv != nil {
+						okAll = false
+						c.bad("R17.3", construct, c.ipos(in), "a tick of the ping timer can pass without a ping being written: the peer times out on a healthy link under one-way traffic")
+					}
+				}
+			})
 			if okAll {
 				c.ok("R17.3", construct, c.ipos(pingWrite), "goroutine, loop paced by the ping interval, stop arm returns (write lock: C14 R14.1)")
 			}
@@ -316,8 +351,31 @@ func (c *Ctx) renewalUnconditional(rule string) {
 		ci, ok := in.(ssa.CallInstruction)
 		return ok && strings.HasPrefix(calleeName(ci), "(*"+gorilla+".Conn).") && methodOf(ci) == "SetReadDeadline"
 	}
-	isDuration := func(v ssa.Value) bool { return isNamed(v.Type(), "time", "Duration") }
-	// edges on which a time.Duration value is known to be <= 0 (no timeout configured)
+	// the timeout: the duration field(s) the deadline is computed from
+	timeoutFields := map[*types.Var]bool{}
+	allInstrs(fn, func(in ssa.Instruction) {
+		if !isSet(in) {
+			return
+		}
+		args := in.(ssa.CallInstruction).Common().Args
+		c.dependsOn(args[len(args)-1], func(v ssa.Value) bool {
+			if f := loadedField(v); f != nil && isNamed(f.Type(), "time", "Duration") {
+				timeoutFields[f] = true
+			}
+			return false
+		}, 0, map[ssa.Value]bool{})
+	})
+	isDuration := func(v ssa.Value) bool {
+		if !isNamed(v.Type(), "time", "Duration") {
+			return false
+		}
+		if len(timeoutFields) == 0 {
+			return true
+		}
+		f := loadedField(v)
+		return f != nil && timeoutFields[f]
+	}
+	// edges on which the timeout is known to be <= 0 (no timeout configured)
 	noTimeoutEdge := func(b *ssa.BasicBlock, k int) bool {
 		iff, ok := b.Instrs[len(b.Instrs)-1].(*ssa.If)
 		if !ok {
@@ -423,5 +481,70 @@ func (c *Ctx) stickyWriteDeadline(rule string) {
 	}
 	if n == 0 {
 		c.ok(rule, "no instance", "-", "the library sets no write deadline")
+	}
+}
+
+// pingHandlerNeedsPinger: R17.10. The peer's liveness signal is whatever control frame we send it:
+// our pings, or the pong gorilla's default ping handler writes in answer to its pings. A custom ping
+// handler that does not write a pong silences the second; it may therefore only be installed on a
+// side that sends pings of its own, i.e. under "ping interval != 0". Installed unconditionally, a
+// server with pings disabled (WithServerPingInterval(0)) gives its clients no sign of life: every call
+// or idle gap longer than the client's timeout drops a healthy link.
+func (c *Ctx) pingHandlerNeedsPinger(rule string) {
+	p, r := c.P, c.R
+	if r.FPingIv == nil {
+		c.und(rule, "ping interval field", "-", "not resolved")
+		return
+	}
+	n := 0
+	for _, ci := range gorillaConnCalls(p) {
+		if methodOf(ci) != "SetPingHandler" {
+			continue
+		}
+		n++
+		construct := fmt.Sprintf("%s: custom ping handler", fname(ci.Parent()))
+		answers := false
+		for _, h := range c.funcsOf(ci.Common().Args[1]) {
+			p.coneInstrs(h, func(in ssa.Instruction) {
+				if x, ok := in.(ssa.CallInstruction); ok && strings.HasPrefix(calleeName(x), "(*"+gorilla+".Conn).") {
+					if m := methodOf(x); m == "WriteControl" || m == "WriteMessage" {
+						if k, isK := constInt(x.Common().Args[1]); isK && k == 10 {
+							answers = true
+						}
+					}
+				}
+			})
+		}
+		if answers {
+			c.ok(rule, construct, c.ipos(ci), "the handler answers with a pong itself")
+			continue
+		}
+		guarded := false
+		for _, cf := range expandConds(impliedConds(ci.Block())) {
+			bo, ok := cf.Cond.(*ssa.BinOp)
+			if !ok {
+				continue
+			}
+			x, y, op := bo.X, bo.Y, bo.Op
+			if loadedField(stripConvInt(x)) != r.FPingIv {
+				x, y, op = y, x, flip(op)
+			}
+			if loadedField(stripConvInt(x)) != r.FPingIv {
+				continue
+			}
+			if k, isK := constInt(stripConvInt(y)); !isK || k != 0 {
+				continue
+			}
+			if !cf.True {
+				op = negate(op)
+			}
+			if op == token.NEQ || op == token.GTR {
+				guarded = true
+			}
+		}
+		c.check(guarded, rule, construct, c.ipos(ci), "installed only when a ping interval is configured", "the pong-less ping handler is installed also when this side sends no pings (ping interval 0): the peer then gets neither pongs nor pings from us, sees no sign of life, and drops the healthy link after its timeout — calls longer than the timeout fail")
+	}
+	if n == 0 {
+		c.ok(rule, "ping handler", "-", "gorilla's default ping handler (answers with a pong) is in place")
 	}
 }
